@@ -169,6 +169,9 @@ class ParseContext:
     self._symbol_table = {}
     self._symbol_source = {}
     self._dynamic_registration = False
+    # References created by this parse. With dynamic registration they may need
+    # to be re-initialized before the statement they belong to has been bound.
+    self._references = []
 
     if import_manager is not None:
       for stmt in import_manager.sorted_imports:
@@ -181,6 +184,11 @@ class ParseContext:
   @property
   def import_manager(self):
     return self._import_manager
+
+  def note_reference(self, reference):
+    """Remembers a reference created while parsing under this context."""
+    if self._dynamic_registration:
+      self._references.append(reference)
 
   def _enable_dynamic_registration(self):
     self._dynamic_registration = True
@@ -353,7 +361,11 @@ class ParseContext:
       # Point existing references at the new registration directly: their own
       # selectors may have been written in another file, with other imports.
       updated = _INVERSE_REGISTRY[fn_or_cls]
-      for reference in iterate_references(_CONFIG, to=original.wrapper):
+      # (This includes references in the value that is being parsed right now,
+      # which aren't part of the config yet.)
+      for reference in itertools.chain(
+          iterate_references(_CONFIG, to=original.wrapper),
+          iterate_references(self._references, to=original.wrapper)):
         reference.initialize(updated)
 
     if inspect.isfunction(fn_or_cls) and inspect.isclass(path_attrs[-1]):  # pytype: disable=not-supported-yet
@@ -761,6 +773,7 @@ class ConfigurableReference:
     self._scoped_selector = scoped_selector
     self._evaluate = evaluate
     self.initialize()
+    _parse_context().note_reference(self)
 
   def initialize(self, configurable_=None):
     *self._scopes, self._selector = self._scoped_selector.split('/')
